@@ -81,6 +81,21 @@ AeroRequests(pd) ==
            : g \in {RZero, R(3,4)} }
        \cup { [q |-> "cA", aeromu |-> R(7,4)] @@ NoPlace }
 
+(* field requests: a fixed rational state and points incl. corners, edges and interior *)
+StateVec(pd) == Fn([k \in 1..(Num(pd.model) * pd.m * pd.n) |-> R(((k * 7 + 3) % 11) - 5, 8)])
+FieldPts(pd) == << <<RZero, RZero>>, <<pd.a, pd.b>>, <<RMul(R(1,2), pd.a), RMul(R(1,3), pd.b)>>,
+                   <<RMul(R(1,4), pd.a), RMul(R(3,4), pd.b)>>, <<RMul(R(1,8), pd.a), pd.b>>,
+                   <<pd.a, RMul(R(5,8), pd.b)>>, <<RMul(R(7,8), pd.a), RMul(R(1,8), pd.b)>> >>
+Forces1(pd) == << <<RMul(R(1,2), pd.a), RMul(R(1,2), pd.b), R(1,1), R(-2,1), R(3,1)>>,
+                  <<pd.a, RMul(R(1,4), pd.b), R(5,2), RZero, R(-1,1)>> >>
+Forces2(pd) == << <<RMul(R(1,4), pd.a), pd.b, RZero, R(1,2), R(7,1)>> >>
+FieldDefs == { pd \in QuickDefs : pd.model \in {"plate", "cpanel"} /\ pd.y1 = RZero /\ pd.y2 = pd.b }
+FieldRequests(pd) ==
+    { [q |-> "uvw", c |-> StateVec(pd), pts |-> FieldPts(pd)] @@ NoPlace }
+    \cup { [q |-> qq, c |-> StateVec(pd), pts |-> FieldPts(pd), NL |-> nl] @@ NoPlace : qq \in {"strain", "stress"}, nl \in BOOLEAN }
+    \cup { [q |-> "fext", forces |-> Forces1(pd), forcesInc |-> Forces2(pd), inc |-> i] @@ NoPlace : i \in {ROne, R(3,8)} }
+    \cup { [q |-> "fext", forces |-> <<>>, forcesInc |-> Forces1(pd), inc |-> R(1,2)] @@ NoPlace }
+
 VARIABLE phase
 EmitInit == PInit /\ phase = 0
 EmitNext ==
@@ -88,7 +103,8 @@ EmitNext ==
        /\ \E pd \in Defs \cup AeroDefs : Define(pd) /\ PrintT(<<"DEF", pd>>)
     \/ /\ phase = 1 /\ phase' = 2
        /\ \E pd \in Defs \cup AeroDefs : def = CompleteDef(pd) /\
-             \E r \in (IF pd \in AeroDefs THEN AeroRequests(pd) ELSE {}) \cup (IF pd \in Defs THEN Requests(pd) ELSE {}) :
+             \E r \in (IF pd \in AeroDefs THEN AeroRequests(pd) ELSE {}) \cup (IF pd \in Defs THEN Requests(pd) ELSE {})
+                        \cup (IF pd \in FieldDefs THEN FieldRequests(pd) ELSE {}) :
                  r.q \in Qs /\ Eval(r) /\ PrintT(<<"REQ", pd, r>>)
 EmitSpec == EmitInit /\ [][EmitNext]_<<pvars, phase>>
 =============================================================================
